@@ -175,6 +175,7 @@ class C14(Check):
                         # the root makes its OWN engine from the key, and a second card with another console's key is opened next to
                         # it (and stays open) before the first one is used: roots must not share key state however they got their engines
                         root = SDRoot(base, sd_key=data)
+                        rk = (b'', data, [])
                         info['second card opened alongside (own engines)'] = 1
                         key2 = Rng(case['seed'] + 21).rbytes(16)
                         e2 = e.CryptoEngine()
@@ -189,6 +190,7 @@ class C14(Check):
                         eng2.setup_sd_key(Rng(case['seed'] + 22).rbytes(16))
                         _ = eng2.id0
                         root = SDRoot(base, crypto=eng2, sd_key=data)
+                        rk = (Rng(case['seed'] + 22).rbytes(16), data, [])
                     elif case['seed'] % 4 == 3:
                         # the key comes from a movable.sed FILE whose path was used before, for another console's card, in this process
                         import os as _os
@@ -208,10 +210,16 @@ class C14(Check):
                             with open(kpath, 'wb') as kf:
                                 kf.write(data if len(data) in (0x120, 0x140) else bytes(0x110) + data + bytes(0x20))
                             root = SDRoot(base, sd_key_file=kpath)
+                            rk = (b'', b'', [data if len(data) in (0x120, 0x140) else bytes(0x110) + data + bytes(0x20)])
                         finally:
                             shutil.rmtree(kdir, ignore_errors=True)
                     else:
                         root = SDRoot(base, crypto=eng)
+                        rk = (data, b'', [])
+                    # which key the card was opened with: the model's `rootKey` (theorem C14_root_key) on the same arguments
+                    rkn = root._crypto.key_normal
+                    outs.append('ok %s %s %s %s' % (rkn[0x34].hex(), rkn[0x30].hex(), rkn[0x3A].hex(), root.id0))
+                    models.append(drv.ask(('sd-root', rk[0], rk[1], rk[2], 0, blob)))
                     sdfs = root.open_id1()
                     segs = case['segs']
                     dirp = '/'.join(segs[:-1])
